@@ -30,5 +30,15 @@ cp -f /repo/go.sum harness/go.sum
 if [ "${VERIF_SETUP_WARM:-1}" = 1 ]; then
   ( cd harness && go test -tags verif -count=1 -run '^$' ./... >/dev/null 2>&1 || go test -tags verif -count=1 -run '^$' ./... )
   ( cd harness && go test -tags verif -run 'TestSelf' -count=1 ./vkit/... )
+  # warm the race-build cache of the groups that have race checks
+  RACE_GROUPS=$(python3 - <<'PY'
+import json,glob
+g=sorted({json.load(open(f))["group"] for f in glob.glob("checks.d/*.json") if json.load(open(f)).get("build")=="race"})
+print(" ".join("./"+x for x in g))
+PY
+)
+  if [ -n "$RACE_GROUPS" ]; then
+    ( cd harness && go test -race -tags verif -count=1 -run '^$' $RACE_GROUPS >/dev/null 2>&1 || true )
+  fi
 fi
 echo "setup ok"
